@@ -69,6 +69,19 @@ class XExecutor(Executor):
 
     # -- operators on records ---------------------------------------------------------------------------
     def binop(self, op, a, b, st):
+        # string concatenation of a value the contract KNOWS to be a str (hook `is_string`) with a literal: the same string as the
+        # f-string with that template (s + ".pkl" == f"{s}.pkl"); for a value of unknown type `+` may raise, so nothing is assumed
+        if isinstance(op, ast.Add) and getattr(self, "is_string", None) is not None:
+            if isinstance(a, SV) and a.sort == "obj" and isinstance(b, str) and self.is_string(a):
+                text = "{}" + b.replace("{", "{{").replace("}", "}}")
+                fn = self.func("fmt:" + text, "obj", "obj")
+                self.templates[text] = fn
+                return SV(fn(a.t), "obj")
+            if isinstance(b, SV) and b.sort == "obj" and isinstance(a, str) and self.is_string(b):
+                text = a.replace("{", "{{").replace("}", "}}") + "{}"
+                fn = self.func("fmt:" + text, "obj", "obj")
+                self.templates[text] = fn
+                return SV(fn(b.t), "obj")
         for x in (a, b):
             if isinstance(x, Rec):
                 h = self.binops.get((x.cls_name, type(op).__name__))
